@@ -156,6 +156,27 @@ func runC07(c *mon.Ctx) {
 				c.Count("models_with_damaged_pid")
 			}
 		}
+		// a capture that starts in mid-stream: the first packet of some PIDs is the tail of a unit whose beginning is not in the
+		// capture; such a packet may well come before the first PAT
+		orphan := map[uint16]bool{}
+		if i%4 >= 2 {
+			for _, p := range m.PIDs {
+				if p != 0 && len(seq[p]) > 0 && r.IntN(2) == 0 {
+					first := seq[p][0]
+					tail := &astits.Packet{Header: astits.PacketHeader{PID: p, HasPayload: true, ContinuityCounter: (first.Header.ContinuityCounter + 15) & 15}, Payload: gen.Bytes(r, 184)}
+					if r.IntN(2) == 0 {
+						for k := 20; k < 184; k++ {
+							tail.Payload[k] = 0xff // the end of a section followed by stuffing
+						}
+					}
+					seq[p] = append([]*astits.Packet{tail}, seq[p]...)
+					orphan[p] = true
+				}
+			}
+			if len(orphan) > 0 {
+				c.Count("models_joined_in_mid_stream")
+			}
+		}
 		counts := map[uint16]int{}
 		var pids []uint16
 		for _, p := range m.PIDs {
@@ -183,6 +204,22 @@ func runC07(c *mon.Ctx) {
 			}
 		}
 		tryOrder := func(kind string, order []uint16) {
+			// the orphaned first packet of a PID is not bound to come after the PAT: move it to a random earlier place
+			for _, p := range pids {
+				if !orphan[p] {
+					continue
+				}
+				for k, q := range order {
+					if q == p {
+						if k > 0 && r.IntN(3) > 0 {
+							to := r.IntN(k + 1)
+							copy(order[to+1:k+1], order[to:k])
+							order[to] = p
+						}
+						break
+					}
+				}
+			}
 			b := encodeAll(mergeByOrder(seq, order))
 			got, run := perPIDOut(b)
 			data := map[string]any{"merge": kind, "stream": mon.Hex(b, 2500), "damaged": damaged}
